@@ -884,13 +884,19 @@ impl Sim {
                     let mm = self.path_may_migrate[node];
                     let src = addr_num(&from);
                     let pev = if migrated {
-                        let pto3 = toff(a.timers[4]).map_or(0, |t| t.saturating_sub(nowoff));
-                        Some(format!("pkt {src} 1 {nowoff} {pto3}"))
+                        // the deadline is the model's: factor (regenerated from `migrate`) x max(PTO new path, PTO old path).
+                        // The old path's PTO is the one AFTER this packet's ACKs were processed (the migration comes last):
+                        // readable when the path left is the one remembered as previous path, else the event is not replayed
+                        let mad = a.pto[2].saturating_sub(a.path.rtt_pto_base);
+                        match a.prev_path.as_ref() {
+                            Some(pp) if !b.path.challenge && pp.remote == b.path.remote => Some(format!("pkt {src} 1 {nowoff} {} {}", a.pto[2].as_nanos(), (pp.rtt_pto_base + mad).as_nanos())),
+                            _ => None,
+                        }
                     } else if !b.path.validated && a.path.validated && b.path.challenge {
                         Some(format!("response {src} match"))
                     } else if a.total_authed_packets > b.total_authed_packets || from != b.path.remote {
                         // any other packet (not triggering a migration)
-                        Some(format!("pkt {src} 0 {nowoff} 0"))
+                        Some(format!("pkt {src} 0 {nowoff} 0 0"))
                     } else {
                         None
                     };
@@ -957,7 +963,9 @@ impl Sim {
                 };
                 progressed = true;
                 self.on_transmit(node, ch, &before, &t, &buf);
-                if self.model_trace && t.destination == before.path.remote && self.model_ops.len() < 400_000 {
+                // (a PATH_CHALLENGE for the previous path is accounted to that path, also when it has the current path's address)
+                let prev_challenge = before.prev_path.as_ref().is_some_and(|p| p.challenge_pending && p.remote == t.destination);
+                if self.model_trace && t.destination == before.path.remote && !prev_challenge && self.model_ops.len() < 400_000 {
                     let a = self.nodes[node].conns[&ch].conn.verif_snapshot();
                     let seg = t.segment_size.unwrap_or(t.size);
                     let mut sizes = Vec::new();
